@@ -62,7 +62,7 @@ pub const ALPHABET: &[&str] = &[
     // session must survive it
     /* 19 */ "y = 5\n[q, 9] = [1, 2]\nz = 2",
     // a module *type* first mentioned by a compiler-rejected line, then used by an accepted one
-    /* 20 */ "l = [Nil, 3] %list.prepend",
+    /* 20 */ "l = Cons[3, Cons[4, Nil]]",
     /* 21 */ "l =('%list<'int>)m, nope",
     /* 22 */ "l =('%list<'int>)m, m",
 ];
